@@ -22,7 +22,7 @@ TWO32 = 2 ** 32
 ASSUMPTIONS = [
     "ipaddress.ip_address(text) is an uninterpreted parser (version, numeric value) of the text, and is_loopback/is_private/is_global are uninterpreted predicates of (version, value): the T1 result is relative to the ipaddress library; T2 compares against the IANA special-purpose registries",
     "the peer name handed to the hook is `<address>[%<zone>]` where <address> parses as an IP address and neither part contains '%' (it comes from getpeername())",
-    "ConnectionHandler.handle_client (asyncio) is checked in T2 by running the real coroutine with the real Block addon, not in T1",
+    "ConnectionHandler.handle_client (T1): the addon hook is a suspension point whose effect is `client.error := any value`; asyncio task creation/wait, the watchdog, logging, server_event and handle_connection are summaries (ghost records); T2 runs the real coroutine on a real event loop with the real Block addon",
     "mitmproxy.ctx.options is the options object built by the scenario (the addon reads the global ctx)",
 ]
 
@@ -126,6 +126,120 @@ def _truthy_str(vc, v):
         return isinstance(v, str) and len(v) > 0
     v = vc.resolve(v)
     return isinstance(v, SStr) and len_(v) > 0
+
+
+# ---------------------------------------------------------------------------------------------
+# ConnectionHandler.handle_client: a client.error left by the client_connected hook refuses the connection before any
+# protocol processing (no Start event reaches the layer, no connection handler task), the socket is closed and
+# client_disconnected still fires.
+
+CH = "mitmproxy.proxy.server:ConnectionHandler"
+
+
+from mitmproxy.proxy import server as _server  # noqa: E402
+
+
+class Handler22(_server.ConnectionHandler):
+    """Concrete ConnectionHandler: handle_hook is abstract in the class under contract."""
+
+    async def handle_hook(self, hook):
+        return await hook_point(self, hook)
+
+
+def hook_point(handler, hook):  # summarised: suspension point at which the addons run
+    raise NotImplementedError
+
+
+class TaskStub22:
+    """asyncio.Task stand-in"""
+
+    def cancel(self, msg=None):
+        self.cancels = self.cancels + 1
+        return True
+
+    def cancelled(self):
+        return False
+
+    def exception(self):
+        return None
+
+
+class WriterStub22:
+    def close(self):
+        self.closed = self.closed + 1
+
+
+@scenario("handle_client.refused_before_protocol_processing", functions=[CH + ".handle_client"])
+def s_handle_client(vc):
+    hook_error = vc.opt("hook_error", vc.sym_str("hook_error_v"))   # what the client_connected hook (Block) leaves in client.error
+    client = mk_client(vc, error=None)
+    writer = vc.new("props.C22:WriterStub22", closed=0)
+    io = vc.new("mitmproxy.proxy.server:ConnectionIO", handler=None, reader=None, writer=writer)
+    h = vc.new("props.C22:Handler22", client=client, transports=vc.dict([(client, io)]), wakeup_timer=vc.lift(set()),
+               timeout_watchdog=vc.new("mitmproxy.proxy.server:TimeoutWatchdog"))
+    tasks = []
+
+    def mk_task(v, coro, **kw):
+        t = v.new("props.C22:TaskStub22", cancels=0, what=kw.get("name"))
+        tasks.append(t)
+        return t
+
+    vc.summary(CH + ".log", lambda v, self_, *a, **k: v.lift(None))
+    vc.summary("mitmproxy.utils.asyncio_utils:set_current_task_debug_info", lambda v, **k: v.lift(None))
+    vc.summary("mitmproxy.utils.asyncio_utils:create_task", mk_task)
+    vc.summary("mitmproxy.proxy.server:TimeoutWatchdog.watch", lambda v, self_: v.lift(None))
+    vc.summary(CH + ".handle_connection", lambda v, self_, conn: v.lift(None))
+    vc.summary(CH + ".server_event", lambda v, self_, ev: v.awaitable("server_event", ev))
+    vc.summary("props.C22:hook_point", lambda v, h_, hook: v.awaitable("hook", hook))
+    vc.summary("asyncio.tasks:wait", lambda v, ts, **k: v.awaitable("wait"))
+    log = []
+
+    def on_yield(item):
+        kind = item[1]
+        if kind in ("hook", "server_event"):
+            name = item[2].cls.__name__ if isinstance(item[2], SObj) else type(item[2]).__name__
+            log.append(kind + ":" + name)
+            if name == "ClientConnectedHook":
+                vc.ensure("connected_hook.about_this_client", item[2].client is client)
+                client.error = hook_error          # the addon's effect
+        else:
+            log.append(kind)
+        return None
+
+    out = vc.call(CH + ".handle_client", h, on_yield=on_yield)
+    vc.ensure("no_exception", out.ok)
+    if not out.ok:
+        return
+    hooks = [x for x in log if x.startswith("hook:")]
+    vc.ensure("hooks.connected_then_disconnected", hooks == ["hook:ClientConnectedHook", "hook:ClientDisconnectedHook"])
+    vc.ensure("hooks.connected_first", log[:1] == ["hook:ClientConnectedHook"])
+    refused = vc.branch(And(Not(isnone(hook_error)), len_(_val_of(vc, hook_error)) > 0))
+    task_names = [_name_of(vc, t.what) for t in tasks]
+    if refused:
+        vc.ensure("refused.no_event_reaches_the_layer", not any(x.startswith("server_event:") for x in log))
+        vc.ensure("refused.no_connection_handler_task", task_names == ["timeout watchdog"])
+        vc.ensure("refused.socket_closed", writer.closed == 1)
+        vc.ensure("refused.transport_removed", len_(h.transports) == 0)
+    else:
+        vc.ensure("allowed.start_is_first_event", [x for x in log if x.startswith("server_event:")][:1] == ["server_event:Start"])
+        vc.ensure("allowed.connection_handler_started", task_names == ["timeout watchdog", "client connection handler"])
+        vc.ensure("allowed.socket_not_closed_here", writer.closed == 0)
+    vc.ensure("watchdog_cancelled", tasks[0].cancels == 1)
+
+
+def _val_of(vc, u):
+    """string alternative of an optional value ('' for None)"""
+    if vc.mode == "native":
+        return u or ""
+    if isinstance(u, SUnion):
+        return [v for c, v in u.alts if isinstance(v, SStr)][0]
+    return u if isinstance(u, SStr) else SStr("")
+
+
+def _name_of(vc, v):
+    if vc.mode == "native":
+        return v
+    return v.concrete() if hasattr(v, "concrete") else None
 
 
 # =============================================================================================
